@@ -277,6 +277,13 @@ func newInst(u *vUniverse, init vState, hasTick bool, rnd *mrand.Rand) *vInst {
 		}
 	}
 	in.px = verifh.NewProxy(in.kr, mrand.New(mrand.NewSource(rnd.Int63())))
+	in.px.Frag = rnd.Intn(3) != 0 // most instances see replies arrive in several segments
+	in.px.Rewrite = func(req, reply []byte) []byte {
+		if len(req) > 0 && req[0] == 27 { // extension requests are answered with an echo so that replies are sizeable and caller-specific
+			return append([]byte{29}, req...)
+		}
+		return reply
+	}
 	var conn io.ReadWriteCloser = in.px.Client
 	if vWrapConn != nil {
 		conn = vWrapConn(in.px.Client)
@@ -502,6 +509,9 @@ func (in *vInst) exec(op, arg string) (res vRes) {
 			req = []byte{11}
 		} else {
 			body := make([]byte, 8+in.rint(200))
+			if in.rint(4) == 0 {
+				body = make([]byte, 1000+in.rint(60000))
+			}
 			rand.Read(body)
 			req = append([]byte{27, 0, 0, 0, 7, 'v', 'e', 'r', 'i', 'f', '@', 'x'}, body...)
 		}
